@@ -9,3 +9,20 @@ type Person struct {
 type M map[string]any
 
 type Ints []int
+
+type Address struct {
+	ID     int    `db:"id"`
+	Street string `db:"street"`
+}
+
+type Omit struct {
+	ID int `db:"id,omitempty"`
+}
+
+type MS map[string]string
+
+type Kinds struct {
+	I int `db:"i"`
+}
+
+type S []any
